@@ -312,6 +312,13 @@ def monStep' (m0 : MSt) (bl : Block) : MSt × List String :=
             (if bl.outs.any (fun l => l == ["conn", "panic"]) then ["prop=C12 reason=frame-processing-panicked"] else []))
   | _ => ({ m with st := st' }, [])
 
+/-- the daemon stopped taking bytes or never finished the connection: the pipeline stalled (C16: "a request never
+corrupts or stalls the recording pipeline"; C12: processing goes on after any failure; C14: an error rather than a hang) -/
+def stallFails (bl : Block) : List String :=
+  if bl.outs.any (fun l => l == ["conn", "hang"]) then
+    ["prop=C16 reason=recording-pipeline-stalled", "prop=C12 reason=frame-processing-stalled", "prop=C14 reason=connection-hangs"]
+  else []
+
 def monStep (m : MSt) (bl : Block) : MSt × List String :=
   -- recorder.NewConfig: a configuration is refused exactly when max-secs < min-secs (C03's premise min <= max)
   let cfgFail : List String :=
@@ -323,7 +330,7 @@ def monStep (m : MSt) (bl : Block) : MSt × List String :=
   let m := { m with items := m.items + 1 }
   if configRejected m.st then (m, cfgFail) else
   let (m, fl) := monStep' m bl
-  (m, cfgFail ++ fl)
+  (m, cfgFail ++ fl ++ stallFails bl)
 
 def monFinish (m : MSt) : List String :=
   [s!"STAT stream=e2e files={m.files} decodedframes={m.frames} bytes={m.st.bytes.size} testrequests={m.st.reqOffsets.length} " ++
